@@ -509,7 +509,6 @@ class Shadow:
         if k == "bin":
             a, b = self.ev(e[2], env, ctx), self.ev(e[3], env, ctx)
             v = {"+": a.val + b.val, "-": a.val - b.val, "*": a.val * b.val}[e[1]]
-            v = ((v + 10**6) % (2 * 10**6)) - 10**6  # rendered programs never get that large
             return TV(v, a.dep | b.dep)
         if k == "call":
             return self.call(e[1], [self.ev(a, env, ctx) for a in e[2]], ctx)
@@ -788,7 +787,8 @@ def _abstract_state(st, crit, known, names, addrs, files, uids, is_crit=False):
                         bool(ti.is_mutable_type), bool(ti.object_creation))
     elif isinstance(ti, ExecutedAttributeInstruction):
         d["mem"] = ("attr", names(ti.argument), addrs(ti.src_address) if ti.src_address else 0,
-                    addrs(ti.arg_address) if ti.arg_address else 0, bool(ti.is_mutable_type))
+                    addrs(ti.arg_address) if ti.arg_address else 0, bool(ti.is_mutable_type),
+                    ti.argument == "None")
     return d, oof
 
 
